@@ -1,4 +1,6 @@
 
+from http.cookies import SimpleCookie
+
 from ..common_helpers import ts_props, SimpleConfig
 from ..mixable import Mixable
 
@@ -13,6 +15,19 @@ class RequestConfig(SimpleConfig):
     max_body_size = None
     max_memfile_size = 100 * 1024
     allow_x_script_name = False
+
+
+def _copy_error(tpl):
+    ''' A per-request copy of an `errors_map` entry: the entries are templates shared by all
+        requests, threads and applications, so what is raised (and handed to error handlers)
+        must not be the entry itself. '''
+    err = tpl.__class__(status=tpl._status_code, body=tpl.body)
+    err._status_line = tpl._status_line
+    err._headers.update({k: (v[:] if isinstance(v, list) else v) for k, v in tpl._headers.items()})
+    if tpl._cookies:
+        err._cookies = SimpleCookie()
+        err._cookies.load(tpl._cookies.output(header=''))
+    return err
 
 
 class BaseRequest:
@@ -41,8 +56,8 @@ class BaseRequest:
         for err_cls in (err.__class__, except_class):
             out_err = errors_map.get(err_cls)
             if out_err:
-                # the mapped error is shared: do not let tracebacks pile up on it
-                err = out_err.with_traceback(None)
+                # the mapped error is shared: raise a copy of it
+                err = _copy_error(out_err)
                 break
         raise err
 
